@@ -672,13 +672,14 @@ class Check:
     pid = "C17"
     level = "exploration"
     rule = ("case = (topology in {4 hosts on one switch, clients/server/backup host on three subnets of one router with an ACL}, "
-            "server password in {'pw', none}, node power durations in {0,1}, max_sessions in {2,3,5}, restart/fix durations in {1,2}) x "
+            "server password in {'pw', 'S3cret!', none}, node power durations in {0,1}, max_sessions in {2,3,5,8}, restart/fix durations in {1,2}) x "
             "an op sequence over {connect c1/c2 with right/substring/superstring/case/other/empty/no password; SELECT/INSERT/DELETE/"
             "ENCRYPT/unknown/pg_stat on a held connection; raw sql payloads with never-issued/closed/None/other's/own connection ids; "
             "disconnect; client uninstall/install; native execute/query; service stop/start/pause/resume/restart/fix; backup; restore; "
             "file repair; shutdown/startup of server, client, backup host; router DENY rule (all / postgres / ftp / one client) and its "
-            "removal; DataManipulationBot and RansomwareScript runs; tick}: 10 scripted clause scenarios, every word of length DEPTH over "
-            "a 17-op reduced alphabet between a fixed prefix and a fixed probing suffix, and random sequences of length 45. Non-trivial "
+            "removal; DataManipulationBot and RansomwareScript runs (right / wrong password); tick}: 10 scripted clause scenarios, every "
+            "word of length 3 (thorough: 4 on the switched topology) over a 17-op reduced alphabet (15 without the ACL ops) between a fixed "
+            "prefix (open connection, backup taken while GOOD) and a fixed probing suffix, and random sequences of length 45. Non-trivial "
             "sequence: >=1 grant, >=1 refusal, >=1 successful query and >=1 environment change; distinct by the set of "
             "(op kind, service state, node state, file health, blocked) cells visited.")
     assumptions = [
@@ -717,7 +718,7 @@ class Check:
                         continue
                     specs.append({"name": f"exh4-{topo}-{first}-{second}", "kind": "exh", "topo": topo, "pw": "pw", "first": first,
                                   "second": second, "depth": 4})
-        nrand = 48 if quick else 192
+        nrand = 48 if quick else 288
         for s in range(nrand):
             specs.append({"name": f"rand-{seed * 1000 + s}", "kind": "rand", "seed": seed * 1000 + s, "n": 32 if quick else 60, "len": 45})
         return specs
